@@ -248,6 +248,10 @@ def run_history(hist, acc, prime=True, foreign=False):
                         viols.append((mech, ctx + f" pair=({i},{j}) pids=({a.pid},{b.pid}) incs=({a.inc},{b.inc})"))
                     elif want and not heq:
                         viols.append(("equal_objects_hash_differently", ctx + f" pair=({i},{j})"))
+                    elif not want and heq and reused:
+                        # "hash alike exactly when": two starts under one PID that compare unequal yet share their hash
+                        # value (both hashes come from (pid, start) tuples - a chance collision is not on the cards)
+                        viols.append(("different_process_starts_hash_alike", ctx + f" pair=({i},{j}) pid={a.pid} incs=({a.inc},{b.inc})"))
         # final sweep: is_running of every object (any transient failure is over by now)
         if w.fault_armed:
             w.fault_armed[0] = False
@@ -362,6 +366,8 @@ def run_live(shard, acc):
                     viols.append((f"live:eq_{eq}_want_{same}", f"{tag}: {a!r} vs {b!r}"))
                 if same and hash(a) != hash(b):
                     viols.append(("live:hash_differs_for_equal_objects", f"{tag}: {a!r} vs {b!r}"))
+                if not same and not eq and hash(a) == hash(b):
+                    viols.append(("live:different_processes_hash_alike", f"{tag}: {a!r} vs {b!r}"))
 
     for round_ in range(shard.get("rounds", 1)):
         # pids come round every few seconds on a busy machine: an entry cached for an earlier owner of the pid would be
